@@ -13,9 +13,9 @@ from ..runner import Outcome, canon
 ID = "C18"
 LEVEL = "exploration"
 RULE = ("histories against real git in an isolated HOME / XDG_CONFIG_HOME: an initial configuration is drawn (merge.tool and diff.guitool each "
-        "unset / nbdime / another tool, independently at repository and global level; difftool.prompt / mergetool.prompt unset/true/false; "
+        "unset / nbdime / another tool (incl. names that contain 'nbdime'), independently at repository and global level; difftool.prompt / mergetool.prompt unset/true/false; "
         "attributes file absent, holding unrelated rules with or without a final newline, or already holding nbdime's lines; an unrelated "
-        "[diff \"other\"] driver), then 1-6 commands from the eight enable/disable functions (with and without --set-default, repository or "
+        "[diff \"other\"] driver; a quarter of the repositories have a gitfile .git), then 1-6 commands from the eight enable/disable functions (with and without --set-default, repository or "
         "global scope) and the combined `nbdime config-git --enable/--disable` (real dispatcher). After every command: (idempotence) repeating "
         "an enable changes nothing; (minimality) only keys of the command's documented own set change, in the addressed scope only, the "
         "attributes file keeps its previous bytes as a prefix, every previous line stays a line and at most one line per driver is added; "
